@@ -432,7 +432,11 @@ FORCED = [(3, 'simple', dict(chem='file-square')), (2, 'array', dict(chem='file-
 # (generated after the random cases, so that the sub-seeds of the earlier cases stay what they were)
 FORCED4 = [(6, 'simple', dict(temp='array-ppoints', cover='inside')), (9, 'evaluated', dict(temp='file-pcol', cover='inside')),
           (5, 'history', dict(temp='array-ppoints', cover='inside')), (4, 'array', dict(temp='file-pcol', cover='around', klass='array')),
-          (40, 'simple', dict(temp='file-pcol', cover='inside')), (3, 'simple', dict(temp='array-ppoints', cover='around'))]
+          (40, 'simple', dict(temp='file-pcol', cover='inside')), (3, 'simple', dict(temp='array-ppoints', cover='around')),
+           # the (kind, as built / after evaluation) classes that `run_traces` requires and that were left to chance so far
+           # (VERIF_SEED=5 did not draw a rodgers-cov model that is evaluated)
+           (3, 'simple', dict(temp='isothermal')), (5, 'simple', dict(temp='array-interp')), (4, 'simple', dict(temp='file')),
+           (5, 'evaluated', dict(temp='rodgers-cov'))]
 
 
 def random_model(rng, n, pkind, X, force=None):
